@@ -11,7 +11,7 @@ const REGSETS: [[u16; 8]; 3] = [[0x4000, 1, 2, 3, 4, 5, 0xFD00, 7], [0x4000, 0xF
 const CCS: [u16; 3] = [0x8001, 0x8002, 0x8004];
 const PUTS_SYM: [u16; 5] = [0x0041, 0x00FF, 0x0001, 0x0180, 0x4100];
 const PUTSP_SYM: [u8; 4] = [0x01, 0x41, 0x80, 0xFF];
-const KB_SYM: [u8; 3] = [0x00, 0x41, 0xFF];
+const KB_SYM: [u8; 5] = [0x00, 0x41, 0xFF, 0x0D, 0x0A];
 const STR_AT: u16 = 0x4000;
 
 fn seq<T: Copy>(alpha: &[T], mut i: u64) -> Vec<T> {
@@ -88,7 +88,7 @@ fn run_case(c: &Case) -> Result<u64, (String, String)> {
 fn cases(ctx: &Ctx) -> Vec<Case> {
     let mut v = vec![];
     let prompt = os_string("S_IN_PROMPT");
-    let kq = seq_count(3, 3);
+    let kq = seq_count(5, 3);
     for (real, ignore_priv) in [(false, false), (true, false), (false, true), (true, true)] { for regset in 0..3 { for cc in 0..3 {
         if ignore_priv && regset != 0 && cc != 1 { continue; }
         // GETC / IN: every non-empty queue of length <=3
